@@ -92,6 +92,7 @@ package meta
 //  - every shard has exactly clamp(ReplicaN, 1, #nodes) owners.
 //@ func (*Data).CreateShardGroup
 //@   props C06
+//@   modifies *except storeFSM.all store.all
 //@   requires nodes_bound: len(data.DataNodes) <= 4096
 //@   requires timestamp_in_nano_range: nanos(timestamp) <= 62135596800000000000 + 9223372036854775806
 //@   requires counters_far_from_wraparound: data.MaxShardID <= 9000000000000000000 && data.MaxShardGroupID <= 9000000000000000000
@@ -182,3 +183,367 @@ package meta
 //@   ensures fresh_meta_nodes: len(result.MetaNodes) == 0 || fresh(result.MetaNodes)
 //@   ensures counters_kept: result.MaxShardID == data.MaxShardID && result.MaxShardGroupID == data.MaxShardGroupID && result.MaxNodeID == data.MaxNodeID
 //@   modifies nothing
+
+// ---- C07.2: what the execute endpoint accepts, every replica can apply ----
+// storeFSM.Apply panics on a command whose type it does not handle and on a command whose payload extension is
+// absent or undecodable (every apply* asserts the extension's type). validateCommand accepts a command only if
+// it is one of the two payload-free no-ops or its payload extension was found and decoded, and never type 7.
+// (wraps: int32(type)+100 may wrap for absurd type numbers; the wrapped key is negative, hence unregistered.)
+//@ func validateCommand
+//@   wraps
+//@   props C07
+//@   ghost ty int = 0
+//@   ghost decoded bool = false
+//@   at after Command.GetType#1: ghost ty = callresult0
+//@   at after proto.GetExtension#1: ghost decoded = callresult1 == nil
+//@   ensures accepted_command_is_applicable: result == nil ==> ty == 2 || ty == 19 || (decoded && ty != 7)
+
+// Node lookups used by the FSM: read-only, result points into the receiver's own node list.
+//@ func (*Data).DataNode
+//@   props C06
+//@   modifies nothing
+//@   ensures in_list: result == nil || is_elem_of(result, data.DataNodes)
+
+//@ func (*Data).MetaNode
+//@   props C06
+//@   modifies nothing
+//@   ensures in_list: result == nil || is_elem_of(result, data.MetaNodes)
+
+// ---- GENERATED-FSM BEGIN (gen/gen_fsm_contracts.py) ----
+// A rejected command changes nothing: the published Data pointer is kept and mutators only ever run on the clone.
+
+//@ func (*storeFSM).applyRemovePeerCommand
+//@   props C06 C07
+//@   requires cmd != nil && fsm.data != nil
+//@   requires fsm.raftState != nil
+//@   at after proto.GetExtension#1: assume typeis(callresult0, "*metapb.RemovePeerCommand") && ival(callresult0) != 0
+//@   ensures rejected_changes_nothing: result != nil ==> fsm.data == old(fsm.data)
+
+//@ func (*storeFSM).applyCreateNodeCommand
+//@   props C06 C07
+//@   requires cmd != nil && fsm.data != nil
+//@   at after proto.GetExtension#1: assume typeis(callresult0, "*metapb.CreateNodeCommand") && ival(callresult0) != 0
+//@   ensures rejected_changes_nothing: result != nil ==> fsm.data == old(fsm.data)
+//@   call Data.CreateMetaNode#1 requires runs_on_private_copy: fresh(other)
+//@   call Data.setDataNode#1 requires runs_on_private_copy: fresh(other)
+//@   call Data.CreateDataNode#1 requires runs_on_private_copy: fresh(other)
+
+//@ func (*storeFSM).applyUpdateNodeCommand
+//@   props C06 C07
+//@   requires cmd != nil && fsm.data != nil
+//@   ensures rejected_changes_nothing: result != nil ==> fsm.data == old(fsm.data)
+
+//@ func (*storeFSM).applyUpdateDataNodeCommand
+//@   props C06 C07
+//@   requires cmd != nil && fsm.data != nil
+//@   at after proto.GetExtension#1: assume typeis(callresult0, "*metapb.UpdateDataNodeCommand") && ival(callresult0) != 0
+//@   ensures rejected_changes_nothing: result != nil ==> fsm.data == old(fsm.data)
+
+//@ func (*storeFSM).applyDeleteNodeCommand
+//@   props C06 C07
+//@   requires cmd != nil && fsm.data != nil
+//@   ensures rejected_changes_nothing: result != nil ==> fsm.data == old(fsm.data)
+
+//@ func (*storeFSM).applyCreateDatabaseCommand
+//@   props C06 C07
+//@   requires cmd != nil && fsm.data != nil
+//@   requires fsm.config != nil
+//@   at after proto.GetExtension#1: assume typeis(callresult0, "*metapb.CreateDatabaseCommand") && ival(callresult0) != 0
+//@   ensures rejected_changes_nothing: result != nil ==> fsm.data == old(fsm.data)
+//@   call Data.CreateDatabase#1 requires runs_on_private_copy: fresh(other)
+//@   call Data.CreateRetentionPolicy#1 requires runs_on_private_copy: fresh(other)
+//@   call Data.CreateRetentionPolicy#2 requires runs_on_private_copy: fresh(other)
+
+//@ func (*storeFSM).applyDropDatabaseCommand
+//@   props C06 C07
+//@   requires cmd != nil && fsm.data != nil
+//@   at after proto.GetExtension#1: assume typeis(callresult0, "*metapb.DropDatabaseCommand") && ival(callresult0) != 0
+//@   ensures rejected_changes_nothing: result != nil ==> fsm.data == old(fsm.data)
+//@   call Data.DropDatabase#1 requires runs_on_private_copy: fresh(other)
+
+//@ func (*storeFSM).applyCreateRetentionPolicyCommand
+//@   props C06 C07
+//@   requires cmd != nil && fsm.data != nil
+//@   at after proto.GetExtension#1: assume typeis(callresult0, "*metapb.CreateRetentionPolicyCommand") && ival(callresult0) != 0
+//@   ensures rejected_changes_nothing: result != nil ==> fsm.data == old(fsm.data)
+//@   call Data.CreateRetentionPolicy#1 requires runs_on_private_copy: fresh(other)
+
+//@ func (*storeFSM).applyDropRetentionPolicyCommand
+//@   props C06 C07
+//@   requires cmd != nil && fsm.data != nil
+//@   at after proto.GetExtension#1: assume typeis(callresult0, "*metapb.DropRetentionPolicyCommand") && ival(callresult0) != 0
+//@   ensures rejected_changes_nothing: result != nil ==> fsm.data == old(fsm.data)
+//@   call Data.DropRetentionPolicy#1 requires runs_on_private_copy: fresh(other)
+
+//@ func (*storeFSM).applyUpdateRetentionPolicyCommand
+//@   props C06 C07
+//@   requires cmd != nil && fsm.data != nil
+//@   at after proto.GetExtension#1: assume typeis(callresult0, "*metapb.UpdateRetentionPolicyCommand") && ival(callresult0) != 0
+//@   ensures rejected_changes_nothing: result != nil ==> fsm.data == old(fsm.data)
+//@   call Data.UpdateRetentionPolicy#1 requires runs_on_private_copy: fresh(other)
+
+//@ func (*storeFSM).applyCreateShardGroupCommand
+//@   props C06 C07
+//@   requires cmd != nil && fsm.data != nil
+//@   at after proto.GetExtension#1: assume typeis(callresult0, "*metapb.CreateShardGroupCommand") && ival(callresult0) != 0
+//@   ensures rejected_changes_nothing: result != nil ==> fsm.data == old(fsm.data)
+//@   call Data.CreateShardGroup#1 assume_callee_requires
+//@   call Data.CreateShardGroup#1 requires runs_on_private_copy: fresh(other)
+
+//@ func (*storeFSM).applyDeleteShardGroupCommand
+//@   props C06 C07
+//@   requires cmd != nil && fsm.data != nil
+//@   at after proto.GetExtension#1: assume typeis(callresult0, "*metapb.DeleteShardGroupCommand") && ival(callresult0) != 0
+//@   ensures rejected_changes_nothing: result != nil ==> fsm.data == old(fsm.data)
+//@   call Data.DeleteShardGroup#1 requires runs_on_private_copy: fresh(other)
+
+//@ func (*storeFSM).applyDropShardCommand
+//@   props C06 C07
+//@   requires cmd != nil && fsm.data != nil
+//@   at after proto.GetExtension#1: assume typeis(callresult0, "*metapb.DropShardCommand") && ival(callresult0) != 0
+//@   ensures rejected_changes_nothing: result != nil ==> fsm.data == old(fsm.data)
+//@   call Data.DropShard#1 requires runs_on_private_copy: fresh(other)
+
+//@ func (*storeFSM).applyTruncateShardGroupsCommand
+//@   props C06 C07
+//@   requires cmd != nil && fsm.data != nil
+//@   at after proto.GetExtension#1: assume typeis(callresult0, "*metapb.TruncateShardGroupsCommand") && ival(callresult0) != 0
+//@   ensures rejected_changes_nothing: result != nil ==> fsm.data == old(fsm.data)
+//@   call Data.TruncateShardGroups#1 requires runs_on_private_copy: fresh(other)
+
+//@ func (*storeFSM).applyPruneShardGroupsCommand
+//@   props C06 C07
+//@   requires cmd != nil && fsm.data != nil
+//@   at after proto.GetExtension#1: assume typeis(callresult0, "*metapb.PruneShardGroupsCommand") && ival(callresult0) != 0
+//@   ensures rejected_changes_nothing: result != nil ==> fsm.data == old(fsm.data)
+//@   call Data.PruneShardGroups#1 requires runs_on_private_copy: fresh(other)
+
+//@ func (*storeFSM).applyCopyShardOwnerCommand
+//@   props C06 C07
+//@   requires cmd != nil && fsm.data != nil
+//@   at after proto.GetExtension#1: assume typeis(callresult0, "*metapb.CopyShardOwnerCommand") && ival(callresult0) != 0
+//@   ensures rejected_changes_nothing: result != nil ==> fsm.data == old(fsm.data)
+//@   call Data.CopyShardOwner#1 requires runs_on_private_copy: fresh(other)
+
+//@ func (*storeFSM).applyRemoveShardOwnerCommand
+//@   props C06 C07
+//@   requires cmd != nil && fsm.data != nil
+//@   at after proto.GetExtension#1: assume typeis(callresult0, "*metapb.RemoveShardOwnerCommand") && ival(callresult0) != 0
+//@   ensures rejected_changes_nothing: result != nil ==> fsm.data == old(fsm.data)
+//@   call Data.RemoveShardOwner#1 requires runs_on_private_copy: fresh(other)
+
+//@ func (*storeFSM).applyCreateContinuousQueryCommand
+//@   props C06 C07
+//@   requires cmd != nil && fsm.data != nil
+//@   at after proto.GetExtension#1: assume typeis(callresult0, "*metapb.CreateContinuousQueryCommand") && ival(callresult0) != 0
+//@   ensures rejected_changes_nothing: result != nil ==> fsm.data == old(fsm.data)
+//@   call Data.CreateContinuousQuery#1 requires runs_on_private_copy: fresh(other)
+
+//@ func (*storeFSM).applyDropContinuousQueryCommand
+//@   props C06 C07
+//@   requires cmd != nil && fsm.data != nil
+//@   at after proto.GetExtension#1: assume typeis(callresult0, "*metapb.DropContinuousQueryCommand") && ival(callresult0) != 0
+//@   ensures rejected_changes_nothing: result != nil ==> fsm.data == old(fsm.data)
+//@   call Data.DropContinuousQuery#1 requires runs_on_private_copy: fresh(other)
+
+//@ func (*storeFSM).applyCreateSubscriptionCommand
+//@   props C06 C07
+//@   requires cmd != nil && fsm.data != nil
+//@   at after proto.GetExtension#1: assume typeis(callresult0, "*metapb.CreateSubscriptionCommand") && ival(callresult0) != 0
+//@   ensures rejected_changes_nothing: result != nil ==> fsm.data == old(fsm.data)
+//@   call Data.CreateSubscription#1 requires runs_on_private_copy: fresh(other)
+
+//@ func (*storeFSM).applyDropSubscriptionCommand
+//@   props C06 C07
+//@   requires cmd != nil && fsm.data != nil
+//@   at after proto.GetExtension#1: assume typeis(callresult0, "*metapb.DropSubscriptionCommand") && ival(callresult0) != 0
+//@   ensures rejected_changes_nothing: result != nil ==> fsm.data == old(fsm.data)
+//@   call Data.DropSubscription#1 requires runs_on_private_copy: fresh(other)
+
+//@ func (*storeFSM).applyCreateUserCommand
+//@   props C06 C07
+//@   requires cmd != nil && fsm.data != nil
+//@   at after proto.GetExtension#1: assume typeis(callresult0, "*metapb.CreateUserCommand") && ival(callresult0) != 0
+//@   ensures rejected_changes_nothing: result != nil ==> fsm.data == old(fsm.data)
+//@   call Data.CreateUser#1 requires runs_on_private_copy: fresh(other)
+
+//@ func (*storeFSM).applyDropUserCommand
+//@   props C06 C07
+//@   requires cmd != nil && fsm.data != nil
+//@   at after proto.GetExtension#1: assume typeis(callresult0, "*metapb.DropUserCommand") && ival(callresult0) != 0
+//@   ensures rejected_changes_nothing: result != nil ==> fsm.data == old(fsm.data)
+//@   call Data.DropUser#1 requires runs_on_private_copy: fresh(other)
+
+//@ func (*storeFSM).applyUpdateUserCommand
+//@   props C06 C07
+//@   requires cmd != nil && fsm.data != nil
+//@   at after proto.GetExtension#1: assume typeis(callresult0, "*metapb.UpdateUserCommand") && ival(callresult0) != 0
+//@   ensures rejected_changes_nothing: result != nil ==> fsm.data == old(fsm.data)
+//@   call Data.UpdateUser#1 requires runs_on_private_copy: fresh(other)
+
+//@ func (*storeFSM).applySetPrivilegeCommand
+//@   props C06 C07
+//@   requires cmd != nil && fsm.data != nil
+//@   at after proto.GetExtension#1: assume typeis(callresult0, "*metapb.SetPrivilegeCommand") && ival(callresult0) != 0
+//@   ensures rejected_changes_nothing: result != nil ==> fsm.data == old(fsm.data)
+//@   call Data.SetPrivilege#1 requires runs_on_private_copy: fresh(other)
+
+//@ func (*storeFSM).applySetAdminPrivilegeCommand
+//@   props C06 C07
+//@   requires cmd != nil && fsm.data != nil
+//@   at after proto.GetExtension#1: assume typeis(callresult0, "*metapb.SetAdminPrivilegeCommand") && ival(callresult0) != 0
+//@   ensures rejected_changes_nothing: result != nil ==> fsm.data == old(fsm.data)
+//@   call Data.SetAdminPrivilege#1 requires runs_on_private_copy: fresh(other)
+
+//@ func (*storeFSM).applySetDataCommand
+//@   props C06 C07
+//@   requires cmd != nil && fsm.data != nil
+//@   at after proto.GetExtension#1: assume typeis(callresult0, "*metapb.SetDataCommand") && ival(callresult0) != 0
+//@   ensures rejected_changes_nothing: result != nil ==> fsm.data == old(fsm.data)
+//@   call Data.unmarshal#1 requires runs_on_private_copy: fresh(fsm.data)
+
+//@ func (*storeFSM).applyCreateMetaNodeCommand
+//@   props C06 C07
+//@   requires cmd != nil && fsm.data != nil
+//@   at after proto.GetExtension#1: assume typeis(callresult0, "*metapb.CreateMetaNodeCommand") && ival(callresult0) != 0
+//@   ensures rejected_changes_nothing: result != nil ==> fsm.data == old(fsm.data)
+//@   call Data.CreateMetaNode#1 requires runs_on_private_copy: fresh(other)
+
+//@ func (*storeFSM).applySetMetaNodeCommand
+//@   props C06 C07
+//@   requires cmd != nil && fsm.data != nil
+//@   at after proto.GetExtension#1: assume typeis(callresult0, "*metapb.SetMetaNodeCommand") && ival(callresult0) != 0
+//@   ensures rejected_changes_nothing: result != nil ==> fsm.data == old(fsm.data)
+//@   call Data.SetMetaNode#1 requires runs_on_private_copy: fresh(other)
+
+//@ func (*storeFSM).applyDeleteMetaNodeCommand
+//@   props C06 C07
+//@   requires cmd != nil && fsm.data != nil
+//@   at after proto.GetExtension#1: assume typeis(callresult0, "*metapb.DeleteMetaNodeCommand") && ival(callresult0) != 0
+//@   ensures rejected_changes_nothing: result != nil ==> fsm.data == old(fsm.data)
+//@   call Data.DeleteMetaNode#1 requires runs_on_private_copy: fresh(other)
+
+//@ func (*storeFSM).applyCreateDataNodeCommand
+//@   props C06 C07
+//@   requires cmd != nil && fsm.data != nil
+//@   at after proto.GetExtension#1: assume typeis(callresult0, "*metapb.CreateDataNodeCommand") && ival(callresult0) != 0
+//@   ensures rejected_changes_nothing: result != nil ==> fsm.data == old(fsm.data)
+//@   call Data.CreateDataNode#1 requires runs_on_private_copy: fresh(other)
+
+//@ func (*storeFSM).applyDeleteDataNodeCommand
+//@   props C06 C07
+//@   requires cmd != nil && fsm.data != nil
+//@   at after proto.GetExtension#1: assume typeis(callresult0, "*metapb.DeleteDataNodeCommand") && ival(callresult0) != 0
+//@   ensures rejected_changes_nothing: result != nil ==> fsm.data == old(fsm.data)
+//@   call Data.DeleteDataNode#1 requires runs_on_private_copy: fresh(other)
+
+// Data's mutators cannot reach the store (Data holds no pointer to it): assumed frame, bodies unverified here.
+//@ func (*Data).CopyShardOwner
+//@   assumed
+//@   modifies *except storeFSM.all store.all
+
+//@ func (*Data).CreateContinuousQuery
+//@   assumed
+//@   modifies *except storeFSM.all store.all
+
+//@ func (*Data).CreateDataNode
+//@   assumed
+//@   modifies *except storeFSM.all store.all
+
+//@ func (*Data).CreateDatabase
+//@   assumed
+//@   modifies *except storeFSM.all store.all
+
+//@ func (*Data).CreateMetaNode
+//@   assumed
+//@   modifies *except storeFSM.all store.all
+
+//@ func (*Data).CreateRetentionPolicy
+//@   assumed
+//@   modifies *except storeFSM.all store.all
+
+//@ func (*Data).CreateSubscription
+//@   assumed
+//@   modifies *except storeFSM.all store.all
+
+//@ func (*Data).CreateUser
+//@   assumed
+//@   modifies *except storeFSM.all store.all
+
+//@ func (*Data).DeleteDataNode
+//@   assumed
+//@   modifies *except storeFSM.all store.all
+
+//@ func (*Data).DeleteMetaNode
+//@   assumed
+//@   modifies *except storeFSM.all store.all
+
+//@ func (*Data).DeleteShardGroup
+//@   assumed
+//@   modifies *except storeFSM.all store.all
+
+//@ func (*Data).DropContinuousQuery
+//@   assumed
+//@   modifies *except storeFSM.all store.all
+
+//@ func (*Data).DropDatabase
+//@   assumed
+//@   modifies *except storeFSM.all store.all
+
+//@ func (*Data).DropRetentionPolicy
+//@   assumed
+//@   modifies *except storeFSM.all store.all
+
+//@ func (*Data).DropShard
+//@   assumed
+//@   modifies *except storeFSM.all store.all
+
+//@ func (*Data).DropSubscription
+//@   assumed
+//@   modifies *except storeFSM.all store.all
+
+//@ func (*Data).DropUser
+//@   assumed
+//@   modifies *except storeFSM.all store.all
+
+//@ func (*Data).PruneShardGroups
+//@   assumed
+//@   modifies *except storeFSM.all store.all
+
+//@ func (*Data).RemoveShardOwner
+//@   assumed
+//@   modifies *except storeFSM.all store.all
+
+//@ func (*Data).SetAdminPrivilege
+//@   assumed
+//@   modifies *except storeFSM.all store.all
+
+//@ func (*Data).SetMetaNode
+//@   assumed
+//@   modifies *except storeFSM.all store.all
+
+//@ func (*Data).SetPrivilege
+//@   assumed
+//@   modifies *except storeFSM.all store.all
+
+//@ func (*Data).TruncateShardGroups
+//@   assumed
+//@   modifies *except storeFSM.all store.all
+
+//@ func (*Data).UpdateRetentionPolicy
+//@   assumed
+//@   modifies *except storeFSM.all store.all
+
+//@ func (*Data).UpdateUser
+//@   assumed
+//@   modifies *except storeFSM.all store.all
+
+//@ func (*Data).setDataNode
+//@   assumed
+//@   modifies *except storeFSM.all store.all
+
+//@ func (*Data).unmarshal
+//@   assumed
+//@   modifies *except storeFSM.all store.all
+
+// ---- GENERATED-FSM END ----
